@@ -330,6 +330,39 @@ func ruleTB7() Rule {
 // ---------------------------------------------------------------------------
 // TB8: special-parameter sets agree.
 
+// oneCharNames collects the one-character names a function (with its private
+// helpers) distinguishes: single-character case labels of its switches, and the
+// characters of a constant string a name's character is looked up in
+// (strings.IndexByte(set, s[0]), strings.ContainsRune(set, r)).
+func oneCharNames(c *Ctx, f *core.Func, got map[rune]bool) {
+	for _, g := range c.region(f) {
+		for _, sw := range switches(c.P, g) {
+			for _, cl := range sw.clauses {
+				for s := range cl.strs {
+					if len(s) == 1 {
+						got[rune(s[0])] = true
+					}
+				}
+			}
+		}
+	}
+	c.regionNodes(f, func(g *core.Func, n ast.Node) bool {
+		call, ok := n.(*ast.CallExpr)
+		if !ok || len(call.Args) != 2 {
+			return true
+		}
+		switch calleeName(g.Info(), call) {
+		case "strings.IndexByte", "strings.IndexRune", "strings.ContainsRune": // one character by type
+			if set, ok := constStr(g.Info(), call.Args[0]); ok {
+				for _, r := range set {
+					got[r] = true
+				}
+			}
+		}
+		return true
+	})
+}
+
 func ruleTB8() Rule {
 	return Rule{ID: "TB8", Kind: "agreement", Floor: 4,
 		Doc: "the special-parameter set is the same in isSpParam, in the two parameter-expansion scanners and in Get: @ * # ? - $ ! 0",
@@ -346,15 +379,7 @@ func ruleTB8() Rule {
 			// isSpParam
 			if f := c.mustFn(rr, "interp.(*ExecEnv).isSpParam"); f != nil {
 				got := map[rune]bool{}
-				for _, sw := range switches(c.P, f) {
-					for _, cl := range sw.clauses {
-						for s := range cl.strs {
-							if len(s) == 1 {
-								got[rune(s[0])] = true
-							}
-						}
-					}
-				}
+				oneCharNames(c, f, got)
 				key := f.Name + "|set"
 				if norm(got) == want {
 					rr.OK(f, key, f.Pos(), "equal", norm(got))
@@ -365,15 +390,7 @@ func ruleTB8() Rule {
 			// Get: single-character switch ∪ {@,*}
 			if f := c.mustFn(rr, "interp.(*ExecEnv).Get"); f != nil {
 				got := map[rune]bool{'@': true, '*': true}
-				for _, sw := range switches(c.P, f) {
-					for _, cl := range sw.clauses {
-						for s := range cl.strs {
-							if len(s) == 1 {
-								got[rune(s[0])] = true
-							}
-						}
-					}
-				}
+				oneCharNames(c, f, got)
 				key := f.Name + "|set"
 				if norm(got) == want {
 					rr.OK(f, key, f.Pos(), "equal", "Get synthesises # ? - $ ! 0; @ and * are handled by expandParam")
